@@ -2,7 +2,9 @@ package rules
 
 import (
 	"fmt"
+	"go/token"
 	"go/types"
+	"sort"
 	"strings"
 
 	"golang.org/x/tools/go/ssa"
@@ -13,8 +15,8 @@ import (
 
 var closeRows = map[string]string{
 	"each-once": "every wired closer is closed exactly once, whatever the other closers answer, and nothing else is closed",
-	"counted":   "when closers run in goroutines, every goroutine signals that it is finished exactly once: it lowers a WaitGroup counter that was raised for it before it started (raised by exactly the number of goroutines started), or it sends one token on a channel",
-	"awaited":   "when closers run in goroutines, the closing routine waits for all of them after the last one was started and before it returns: Wait on that WaitGroup, or one token received per goroutine",
+	"counted":   "when closers run in goroutines, the join adds up on every explored schedule: no WaitGroup counter goes negative (a goroutine lowering it before it was raised, or twice), and nobody waits for ever (a counter raised too far or never lowered, a token nobody sends or takes)",
+	"awaited":   "when closers run in goroutines, no closer is closed after the closing routine has returned - also on the schedule on which the closing routine runs as far ahead of its goroutines as the program lets it",
 	"no-panic":  "the closing routine does not panic",
 }
 
@@ -22,7 +24,7 @@ type closeTableResult struct {
 	rs    rows
 	runs  int
 	und   string
-	gos   map[*ssa.Go]bool // the go statements the runs went through
+	gos   map[token.Pos]bool // the go statements the runs went through
 	field string           // the field of the receiver the closers were read from
 }
 
@@ -31,12 +33,13 @@ type closeTableResult struct {
 // at its go statement) with the WaitGroup as a counter: which closers are closed how often, and whether the counter
 // protocol adds up, does not depend on the interleaving.  What the schedule hides - a variable shared between the
 // spawning loop and the goroutines, mutual exclusion - is decided structurally by C14.R2 / C20.
+// (Since round 9 the goroutines run under absint's cooperative scheduler, on two schedules: see sched.go.)
 func closeTable(c *core.Ctx, closeFn *ssa.Function) *closeTableResult {
 	key := "close-table:" + core.FnName(closeFn)
 	if v, ok := c.Memo.Load(key); ok {
 		return v.(*closeTableResult)
 	}
-	res := &closeTableResult{rs: rows{}, gos: map[*ssa.Go]bool{}}
+	res := &closeTableResult{rs: rows{}, gos: map[token.Pos]bool{}}
 	defer c.Memo.Store(key, res)
 	ro := c.Roles()
 	cc := c.Named("definition", "CloserComponent")
@@ -44,7 +47,20 @@ func closeTable(c *core.Ctx, closeFn *ssa.Function) *closeTableResult {
 		res.und = "definition.CloserComponent not found, or the closing routine takes parameters"
 		return res
 	}
-	for n := 0; n <= 3; n++ {
+	sizes := []int{0, 1, 2, 3}
+	ks, tooBig := sizeConstants(c, closeFn)
+	if tooBig {
+		res.und = "the closing routine compares the number of closers with a constant too large to explore both sides of"
+		return res
+	}
+	for _, k := range ks {
+		for _, n := range []int{k - 1, k, k + 1} {
+			if n > 3 && !containsInt(sizes, n) {
+				sizes = append(sizes, n)
+			}
+		}
+	}
+	for _, n := range sizes {
 		var trace []string
 		var self *absint.Tok
 		build := func() (absint.Oracle, []absint.Value, []absint.Value) {
@@ -66,49 +82,46 @@ func closeTable(c *core.Ctx, closeFn *ssa.Function) *closeTableResult {
 				return nil
 			}
 			t.invoke[ro.CloserClose] = func(ip *absint.Interp, a []absint.Value) absint.Value {
-				trace = append(trace, "close("+absint.Show(a[0])+")")
-				if ip.Choose(2, "closer outcome") == 1 {
+				if ip.Returned {
+					trace = append(trace, "LATE close("+absint.Show(a[0])+")")
+				} else {
+					trace = append(trace, "close("+absint.Show(a[0])+")")
+				}
+				if n <= 3 && ip.Choose(2, "closer outcome") == 1 {
 					return t.newErr("close")
 				}
 				return absint.Nil{}
 			}
-			wgKey := func(v absint.Value) string {
-				if fr, ok := v.(*absint.FieldRef); ok {
-					return fmt.Sprintf("%p.%s", fr.Obj, fr.Name) // a WaitGroup held by value in a struct field
-				}
-				return fmt.Sprintf("%p", v)
-			}
-			t.ext["(*sync.WaitGroup).Add"] = func(ip *absint.Interp, a []absint.Value) absint.Value {
-				k, ok := a[1].(absint.Int)
-				if !ok {
-					panic(&absint.Undecided{Msg: "WaitGroup.Add of a number the model does not know"})
-				}
-				trace = append(trace, fmt.Sprintf("add(%d)@%s", int64(k), wgKey(a[0])))
-				return nil
-			}
-			t.ext["(*sync.WaitGroup).Done"] = func(ip *absint.Interp, a []absint.Value) absint.Value {
-				trace = append(trace, "done@"+wgKey(a[0]))
-				return nil
-			}
-			t.ext["(*sync.WaitGroup).Wait"] = func(ip *absint.Interp, a []absint.Value) absint.Value {
-				trace = append(trace, "wait@"+wgKey(a[0]))
-				return nil
-			}
+			t.onSync = func(ev, key string) { trace = append(trace, ev+"@"+key) }
 			return t, []absint.Value{receiverFor(closeFn, c.Named("app", "App"), self)}, nil
 		}
 		check := func(ip *absint.Interp, out absint.Outcome) {
-			w := fmt.Sprintf("%d closer(s): %v => %s", n, trace, showOutcome(out))
+			w := fmt.Sprintf("%d closer(s), %s: %v => %s", n, schedName(ip), trace, showOutcome(out))
 			res.rs.hit("no-panic")
 			if out.Panic != nil {
-				res.rs.fail("no-panic", w)
+				if strings.Contains(out.Panic.Msg, "WaitGroup") {
+					res.rs.hit("counted")
+					res.rs.fail("counted", w)
+				} else {
+					res.rs.fail("no-panic", w)
+				}
+				return
+			}
+			if out.Deadlock != nil {
+				res.rs.hit("counted")
+				res.rs.fail("counted", w)
 				return
 			}
 			// each closer exactly once
 			res.rs.hit("each-once")
 			seen := map[string]int{}
+			late := 0
 			for _, e := range trace {
 				if strings.HasPrefix(e, "close(") {
 					seen[e]++
+				}
+				if strings.HasPrefix(e, "LATE close(") {
+					late++
 				}
 			}
 			okOnce := len(seen) == n
@@ -118,154 +131,49 @@ func closeTable(c *core.Ctx, closeFn *ssa.Function) *closeTableResult {
 			if !okOnce {
 				res.rs.fail("each-once", w)
 			}
-			// the counter protocol, per WaitGroup
-			started, depth := 0, 0
-			adds := map[string]int64{}
-			dones := map[string]int{}
-			inGo := map[string]int{} // dones of the goroutine that is running
-			lastGo, okCount := -1, true
-			waitAfter := map[string]int{}
-			var wgs []string
-			for i, e := range trace {
-				switch {
-				case e == "go{":
-					started++
-					depth++
-					inGo = map[string]int{}
-					var total int64
-					for _, v := range adds {
-						total += v
-					}
-					if total < int64(started) {
-						okCount = false // started before the counter was raised for it
-					}
-				case e == "}go":
-					depth--
-					lastGo = i
-					one := 0
-					for _, v := range inGo {
-						one += v
-					}
-					if one != 1 {
-						okCount = false
-					}
-				case strings.HasPrefix(e, "add("):
-					var k int64
-					var id string
-					fmt.Sscanf(e, "add(%d)@%s", &k, &id)
-					if _, known := adds[id]; !known {
-						wgs = append(wgs, id)
-					}
-					adds[id] += k
-				case strings.HasPrefix(e, "done@"):
-					id := strings.TrimPrefix(e, "done@")
-					dones[id]++
-					if depth > 0 {
-						inGo[id]++
-					} else {
-						okCount = false // lowered by the parent itself
-					}
-				case strings.HasPrefix(e, "wait@"):
-					waitAfter[strings.TrimPrefix(e, "wait@")] = i
-				}
-			}
-			// the other join: one token per goroutine on a channel
-			sends := map[string]int{}
-			tokenOK, d2 := true, 0
-			var inGoSends int
-			recvAfter := map[string]int{}
-			lastGo2 := -1
-			for i, e := range trace {
-				switch {
-				case e == "go{":
-					d2++
-					inGoSends = 0
-				case e == "}go":
-					d2--
-					lastGo2 = i
-					if inGoSends != 1 {
-						tokenOK = false
-					}
-				case strings.HasPrefix(e, "send@"):
-					if d2 > 0 {
-						inGoSends++
-						sends[strings.TrimPrefix(e, "send@")]++
-					}
-				case strings.HasPrefix(e, "recv@"):
-					if d2 == 0 && i > lastGo2 {
-						recvAfter[strings.TrimPrefix(e, "recv@")]++
-					}
-				}
-			}
-			if started > 0 && len(adds) == 0 && len(dones) == 0 && len(sends) == 1 {
-				res.rs.hit("counted")
-				var ch string
-				for k := range sends {
-					ch = k
-				}
-				if !tokenOK || sends[ch] != started {
-					res.rs.fail("counted", w+fmt.Sprintf(" (goroutines started=%d, tokens sent=%d)", started, sends[ch]))
-				}
-				res.rs.hit("awaited")
-				// every token is received by the parent after the last goroutine was started (under the sequential
-				// schedule all goroutines have finished by then; what matters is that none is left unreceived)
-				if recvAfter[ch] != started {
-					res.rs.fail("awaited", w+fmt.Sprintf(" (goroutines started=%d, tokens received after the last start=%d)", started, recvAfter[ch]))
-				}
+			if ip.Goroutines() == 0 {
 				return
 			}
-			if started > 0 {
-				res.rs.hit("counted")
-				var total int64
-				nd := 0
-				for _, v := range adds {
-					total += v
-				}
-				for _, v := range dones {
-					nd += v
-				}
-				if !okCount || total != int64(started) || nd != started || len(wgs) != 1 {
-					res.rs.fail("counted", w+fmt.Sprintf(" (goroutines started=%d, counter raised by %d, lowered %d time(s), on %d WaitGroup(s))", started, total, nd, len(wgs)))
-				}
-				res.rs.hit("awaited")
-				okWait := len(wgs) == 1
-				if okWait {
-					at, waited := waitAfter[wgs[0]]
-					okWait = waited && at > lastGo
-				}
-				if !okWait {
-					res.rs.fail("awaited", w)
-				}
+			// the join, by its meaning: under both schedules (the closing routine as far ahead of its goroutines as
+			// it can get, and each goroutine running as soon as it is started) the counter never goes negative, nobody
+			// waits for ever, and at the return every goroutine that was started has finished
+			res.rs.hit("counted")
+			res.rs.hit("awaited")
+			if out.Deadlock != nil {
+				res.rs.fail("counted", w)
+			}
+			if late > 0 {
+				res.rs.fail("awaited", w+fmt.Sprintf(" (%d closer(s) closed after the return)", late))
 			}
 		}
-		var tape []int
-		for {
-			orc, args, bind := build()
-			ip := absint.New(orc)
-			ip.IsLog, ip.InScope, ip.GoInline, ip.Tape = core.IsLogCall, c.InScope, true, tape
-			ip.OnChan = func(op string, ch *absint.Chan) {
-				trace = append(trace, fmt.Sprintf("%s@%p", op, ch))
-			}
-			ip.OnGo = func(g *ssa.Go, enter bool) {
-				res.gos[g] = true
-				if enter {
-					trace = append(trace, "go{")
-				} else {
-					trace = append(trace, "}go")
+		for _, parentFirst := range []bool{true, false} {
+			var tape []int
+			for {
+				orc, args, bind := build()
+				ip := absint.New(orc)
+				ip.IsLog, ip.InScope, ip.Tape = core.IsLogCall, c.InScope, tape
+				ip.Sched, ip.ParentFirst = true, parentFirst
+				ip.OnChan = func(op string, ch *absint.Chan) {
+					trace = append(trace, fmt.Sprintf("%s@%p", op, ch))
 				}
+				ip.OnGo = func(g *ssa.Go, enter bool) {
+					res.gos[g.Pos()] = true
+					trace = append(trace, "go")
+				}
+				ip.OnGoEnd = func(id int) { trace = append(trace, fmt.Sprintf("end(%d)", id)) }
+				out := ip.Run(closeFn, args, bind)
+				res.runs++
+				if out.Undecided != nil {
+					res.und = out.Undecided.Msg
+					return res
+				}
+				check(ip, out)
+				next, ok := absint.NextTape(padTape(tape, len(ip.Arity)), ip.Arity)
+				if !ok || res.runs > 5000 {
+					break
+				}
+				tape = next
 			}
-			out := ip.Run(closeFn, args, bind)
-			res.runs++
-			if out.Undecided != nil {
-				res.und = out.Undecided.Msg
-				return res
-			}
-			check(ip, out)
-			next, ok := absint.NextTape(padTape(tape, len(ip.Arity)), ip.Arity)
-			if !ok || res.runs > 5000 {
-				break
-			}
-			tape = next
 		}
 	}
 	return res
@@ -278,7 +186,7 @@ func closeTableDecides(c *core.Ctx, g *ssa.Go) bool {
 		return false
 	}
 	res := closeTable(c, closeFn)
-	if res.und != "" || !res.gos[g] {
+	if res.und != "" || !res.gos[g.Pos()] {
 		return false
 	}
 	for _, row := range []string{"each-once", "counted", "awaited", "no-panic"} {
@@ -299,9 +207,21 @@ func closingRoutineOf(c *core.Ctx, g *ssa.Go) *ssa.Function {
 	}
 	seen := map[*ssa.Function]bool{}
 	if !reachesCall(body, func(com *ssa.CallCommon) bool { return core.IsInvoke(com, ro.CloserClose) }, seen) {
+		// the goroutine runs a function it was handed (a generic helper owns the fan-out): the closing routine is
+		// the one the Close call itself sits in, if its interpretation goes through this go statement
+		for _, site := range c.CallSites(func(com *ssa.CallCommon) bool { return core.IsInvoke(com, ro.CloserClose) }) {
+			if fn := closingRoutineFrom(c, core.TopLevel(site.Parent())); fn != nil {
+				if res := closeTable(c, fn); res.und == "" && res.gos[g.Pos()] {
+					return fn
+				}
+			}
+		}
 		return nil
 	}
-	fn := core.TopLevel(g.Parent())
+	return closingRoutineFrom(c, core.TopLevel(g.Parent()))
+}
+
+func closingRoutineFrom(c *core.Ctx, fn *ssa.Function) *ssa.Function {
 	for i := 0; i < 4 && fn.Object() != nil && !fn.Object().Exported() && len(c.FuncValueUses(fn)) == 0; i++ {
 		var up *ssa.Function
 		for _, cl := range c.Callers(fn) {
@@ -320,4 +240,123 @@ func closingRoutineOf(c *core.Ctx, g *ssa.Go) *ssa.Function {
 		return nil
 	}
 	return fn
+}
+
+func schedName(ip *absint.Interp) string {
+	if ip.ParentFirst {
+		return "the starter runs ahead"
+	}
+	return "each goroutine runs when started"
+}
+
+// sizeConstants: the constants (beyond the sizes every table explores) that the routine, or what it reaches in
+// scope, compares a length or a range index with.  The program's behaviour depends on the size of its input only
+// through such comparisons (and through loops over it), so the sizes on both sides of each constant stand for all
+// sizes; tooBig: a constant too large to be explored.
+func sizeConstants(c *core.Ctx, fn *ssa.Function) (ks []int, tooBig bool) {
+	reached := map[*ssa.Function]bool{}
+	reachesCall(fn, func(*ssa.CallCommon) bool { return false }, reached)
+	reached[fn] = true
+	var sized func(v ssa.Value, depth int, seen map[ssa.Value]bool) bool
+	sized = func(v ssa.Value, depth int, seen map[ssa.Value]bool) bool {
+		if v == nil || depth > 6 || seen[v] {
+			return false
+		}
+		seen[v] = true
+		switch x := v.(type) {
+		case *ssa.Call:
+			if b, ok := x.Call.Value.(*ssa.Builtin); ok {
+				switch b.Name() {
+				case "len", "cap":
+					return true
+				case "min", "max":
+					for _, a := range x.Call.Args {
+						if sized(a, depth+1, seen) {
+							return true
+						}
+					}
+				}
+			}
+		case *ssa.BinOp:
+			return sized(x.X, depth+1, seen) || sized(x.Y, depth+1, seen)
+		case *ssa.Phi:
+			for _, e := range x.Edges {
+				if sized(e, depth+1, seen) {
+					return true
+				}
+			}
+		case *ssa.Convert:
+			return sized(x.X, depth+1, seen)
+		case *ssa.ChangeType:
+			return sized(x.X, depth+1, seen)
+		case *ssa.Extract:
+			if nx, ok := x.Tuple.(*ssa.Next); ok && x.Index == 1 && !nx.IsString {
+				if rg, ok := nx.Iter.(*ssa.Range); ok {
+					if _, isMap := rg.X.Type().Underlying().(*types.Map); !isMap {
+						return true
+					}
+				}
+			}
+		}
+		return false
+	}
+	set := map[int]bool{}
+	for f := range reached {
+		if !c.InScope(f) {
+			continue
+		}
+		for _, g := range core.WithAnon(f) {
+			rls := core.RangeLoops(g)
+			isIndex := func(v ssa.Value) bool {
+				for _, rl := range rls {
+					if v == ssa.Value(rl.Index) || v == rl.Next {
+						return true
+					}
+				}
+				return false
+			}
+			for _, b := range g.Blocks {
+				for _, in := range b.Instrs {
+					bo, ok := in.(*ssa.BinOp)
+					if !ok {
+						continue
+					}
+					switch bo.Op {
+					case token.LSS, token.LEQ, token.GTR, token.GEQ, token.EQL, token.NEQ:
+					default:
+						continue
+					}
+					for _, pr := range [][2]ssa.Value{{bo.X, bo.Y}, {bo.Y, bo.X}} {
+						k, isK := core.ConstInt(pr[0])
+						if !isK || k <= 2 {
+							continue
+						}
+						o := pr[1]
+						if !isIndex(o) && !sized(o, 0, map[ssa.Value]bool{}) {
+							continue
+						}
+						if k > 100 {
+							tooBig = true
+						} else {
+							set[int(k)] = true
+						}
+					}
+				}
+			}
+		}
+	}
+	for k := range set {
+		ks = append(ks, k)
+	}
+	sort.Ints(ks)
+	return
+}
+
+func containsInt(xs []int, x int) bool {
+	for _, y := range xs {
+		if y == x {
+			return true
+		}
+	}
+	return false
 }
